@@ -35,8 +35,8 @@ structure SwapLaws (N : Nat) (interp : Gate → M) : Prop where
   swap_sq : ∀ i j, i < N → j < N → i ≠ j → interp (swapG i j) * interp (swapG i j) = 1
   swap_conj : ∀ i j, i < N → j < N → i ≠ j → ∀ g, TwoQ N g →
     interp (swapG i j) * interp g * interp (swapG i j) = interp (g.relabel (swapAt i j))
-  exch_symm : ∀ nm x y a, nm.isSwp = true → x < N → y < N → x ≠ y →
-    interp ⟨nm, [], [x, y], a, 0⟩ = interp ⟨nm, [], [y, x], a, 0⟩
+  exch_symm : ∀ nm x y a k, nm.isSwp = true → x < N → y < N → x ≠ y →
+    interp ⟨nm, [], [x, y], a, k⟩ = interp ⟨nm, [], [y, x], a, k⟩
 
 theorem relabel_qubits (f : Nat → Nat) (g : Gate) : (g.relabel f).qubits = g.qubits.map f := by
   simp [Gate.relabel, Gate.qubits]
@@ -74,45 +74,118 @@ theorem den_conj {N : Nat} {interp : Gate → M} (laws : SwapLaws N interp) (S :
     rw [laws.swap_conj _ _ hi hj hij _ hg', relabel_relabel]
     exact congrArg interp (relabel_id' _ (fun x => swapAt_swapAt ..) g)
 
-/-- A handled gate the routed version of which is meant to be the same operation: nothing but
-name, qubits and (for SWAPα) the argument — the router does not copy anything else. -/
+/-- A handled gate the routed version of which is meant to be the same operation when the router
+drops classical conditions (`Variant.fixed`): nothing but name, qubits and (for SWAPα) the argument. -/
 def Plain (g : Gate) : Prop := g.extra = 0 ∧ (g.name.isCtl = true → g.arg = 0)
 
-/-- **One handled gate**: the product of the routed gates is the gate. -/
-theorem routeGate_den {N : Nat} {interp : Gate → M} (laws : SwapLaws N interp) (setup : Setup)
-    (hs : setup = .linear ∨ setup = .circular) (g : Gate) (hw : WellFormed N g) (hh : Handled g)
-    (hp : Plain g) (out : List Gate) (ho : routeGate N setup g = .ok out) :
+/-- CNOT / CSIGN carry no `arg_value` (the router rebuilds them from name and qubits) -/
+def PlainArg (g : Gate) : Prop := g.name.isCtl = true → g.arg = 0
+
+/-- **One handled gate**: the product of the routed gates is the gate.  Every `setup`; when the
+router drops classical conditions (`cc = false`) the gate must not carry one. -/
+theorem routeGateV_den {N : Nat} {interp : Gate → M} (laws : SwapLaws N interp) (cc : Bool) (setup : Setup)
+    (g : Gate) (hw : WellFormed N g) (hh : Handled g)
+    (hp : PlainArg g) (hx : cc = false → g.extra = 0) (out : List Gate)
+    (ho : routeGateV (.rep cc) N setup g = .ok out) :
     den interp out = interp g := by
+  have hcond : (Variant.rep cc).cond g = g.extra := by
+    cases cc
+    · rw [hx rfl]; rfl
+    · rfl
   rcases hh with hnm | hnm
   · obtain ⟨c, t, hC, hT, hct, hc, ht⟩ := hw.1 hnm
-    obtain ⟨out', S, h1, h2⟩ := routeCtl_spec N setup hs g c t hnm hC hT hct hc ht
-    rw [routeGate_ctl hnm hC hT, h1] at ho
+    obtain ⟨out', S, h1, h2⟩ := routeCtl_specV cc N setup g c t hnm hC hT hct hc ht
+    rw [routeGateV_ctl hnm hC hT, h1] at ho
     cases ho
-    have hG : (⟨g.name, [track S c], [track S t], 0, 0⟩ : Gate) = g.relabel (track S) := by
-      simp [Gate.relabel, hC, hT, hp.1, hp.2 hnm]
+    have hG : (⟨g.name, [track S c], [track S t], 0, (Variant.rep cc).cond g⟩ : Gate) = g.relabel (track S) := by
+      simp [Gate.relabel, hC, hT, hcond, hp hnm]
     rw [h2.out_eq, hG]
     exact den_conj laws S (fun p hp => ⟨(h2.swaps_ok p hp).1, (h2.swaps_ok p hp).2.1, (h2.swaps_ok p hp).2.2.1⟩)
       g ⟨c, t, by simp [Gate.qubits, hC, hT], hct, hc, ht⟩
   · obtain ⟨t0, t1, hC, hT, h01, h0, h1⟩ := hw.2 hnm
-    obtain ⟨S, p, q, h2, h3⟩ := routeSwp_spec N setup hs g t0 t1 h01 h0 h1
-    rw [routeGate_swp hnm hT] at ho
+    obtain ⟨S, p, q, h2, h3⟩ := routeSwp_specV cc N setup g t0 t1 h01 h0 h1
+    rw [routeGateV_swp hnm hT] at ho
     cases ho
-    have hg : g = ⟨g.name, [], [t0, t1], g.arg, 0⟩ := by
+    have hg : g = ⟨g.name, [], [t0, t1], g.arg, g.extra⟩ := by
       obtain ⟨n, cs, ts, a, x⟩ := g
-      have hx : x = 0 := hp.1
       simp only at hC hT ⊢
-      rw [hC, hT, hx]
+      rw [hC, hT]
     have hSok := fun p hp => (⟨(h2.swaps_ok p hp).1, (h2.swaps_ok p hp).2.1, (h2.swaps_ok p hp).2.2.1⟩ :
       p.1 < N ∧ p.2 < N ∧ p.1 ≠ p.2)
-    rw [h2.out_eq]
+    rw [h2.out_eq, hcond]
     rcases h3 with ⟨rfl, rfl⟩ | ⟨rfl, rfl⟩
-    · have hG : (⟨g.name, [], [track S t0, track S t1], g.arg, 0⟩ : Gate) = g.relabel (track S) := by
-        simp [Gate.relabel, hC, hT, hp.1]
+    · have hG : (⟨g.name, [], [track S t0, track S t1], g.arg, g.extra⟩ : Gate) = g.relabel (track S) := by
+        simp [Gate.relabel, hC, hT]
       rw [hG]
       exact den_conj laws S hSok g ⟨t0, t1, by simp [Gate.qubits, hC, hT], h01, h0, h1⟩
-    · have hG : (⟨g.name, [], [track S t1, track S t0], g.arg, 0⟩ : Gate) =
-          (⟨g.name, [], [t1, t0], g.arg, 0⟩ : Gate).relabel (track S) := rfl
-      rw [hG, den_conj laws S hSok _ ⟨t1, t0, rfl, h01.symm, h1, h0⟩, hg]
-      exact (laws.exch_symm g.name t0 t1 g.arg hnm h0 h1 h01).symm
+    · have hG : (⟨g.name, [], [track S t1, track S t0], g.arg, g.extra⟩ : Gate) =
+          (⟨g.name, [], [t1, t0], g.arg, g.extra⟩ : Gate).relabel (track S) := rfl
+      rw [hG, den_conj laws S hSok _ ⟨t1, t0, rfl, h01.symm, h1, h0⟩]
+      exact (laws.exch_symm g.name t0 t1 g.arg g.extra hnm h0 h1 h01).symm.trans (congrArg interp hg.symm)
+
+/-- the instance for `routeGate` (`Variant.fixed`) and the two documented setups -/
+theorem routeGate_den {N : Nat} {interp : Gate → M} (laws : SwapLaws N interp) (setup : Setup)
+    (_hs : setup = .linear ∨ setup = .circular) (g : Gate) (hw : WellFormed N g) (hh : Handled g)
+    (hp : Plain g) (out : List Gate) (ho : routeGate N setup g = .ok out) :
+    den interp out = interp g :=
+  routeGateV_den laws false setup g hw hh hp.2 (fun _ => hp.1) out ho
+
+/-- **A whole circuit** -/
+theorem toChainV_den {N : Nat} {interp : Gate → M} (laws : SwapLaws N interp) (cc : Bool) (setup : Setup)
+    (gs : List Gate) (hw : ∀ g ∈ gs, WellFormed N g)
+    (hp : ∀ g ∈ gs, Handled g → PlainArg g) (hx : cc = false → ∀ g ∈ gs, Handled g → g.extra = 0)
+    (out : List Gate) (ho : toChainV (.rep cc) N setup gs = .ok out) :
+    den interp out = den interp gs := by
+  induction gs generalizing out with
+  | nil =>
+    have : out = [] := toChainV_nil ho
+    rw [this]
+  | cons g gs ih =>
+    obtain ⟨a, b, ha, hb, rfl⟩ := (toChainV_cons ..).mp ho
+    have hb' := ih (fun g hg => hw g (List.mem_cons_of_mem _ hg))
+      (fun g hg => hp g (List.mem_cons_of_mem _ hg))
+      (fun h g hg => hx h g (List.mem_cons_of_mem _ hg)) b hb
+    rw [den_append, hb', den]
+    congr 1
+    by_cases hh : Handled g
+    · exact routeGateV_den laws cc setup g (hw g (List.mem_cons_self ..)) hh (hp g (List.mem_cons_self ..) hh)
+        (fun h => hx h g (List.mem_cons_self ..) hh) a ha
+    · rw [routeGateV_other hh] at ha; cases ha
+      simp [den]
+
+/-! ## classical conditions
+
+`extra` labels the classical condition of a gate (`0` = none).  Under a valuation `fire` of the
+conditions (which of them hold for the current classical bits) a conditioned gate is its operator
+or the identity.  The laws carry over, so with `fixes/C07-5.patch` the routed circuit is the same
+operator **for every classical state**. -/
+
+/-- the operator of a gate when the conditions `fire` hold -/
+def condInterp (fire : Nat → Bool) (interp : Gate → M) (g : Gate) : M :=
+  if g.extra = 0 ∨ fire g.extra = true then interp g else 1
+
+theorem SwapLaws.cond {N : Nat} {interp : Gate → M} (laws : SwapLaws N interp) (fire : Nat → Bool) :
+    SwapLaws N (condInterp fire interp) where
+  swap_sq := by
+    intro i j hi hj hij
+    have : condInterp fire interp (swapG i j) = interp (swapG i j) := by simp [condInterp, swapG]
+    rw [this]; exact laws.swap_sq i j hi hj hij
+  swap_conj := by
+    intro i j hi hj hij g hg
+    have hs : condInterp fire interp (swapG i j) = interp (swapG i j) := by simp [condInterp, swapG]
+    have he : (g.relabel (swapAt i j)).extra = g.extra := rfl
+    rw [hs]
+    unfold condInterp
+    rw [he]
+    split
+    · exact laws.swap_conj i j hi hj hij g hg
+    · rw [mul_one]; exact laws.swap_sq i j hi hj hij
+  exch_symm := by
+    intro nm x y a k hnm hx hy hxy
+    unfold condInterp
+    simp only
+    split
+    · exact laws.exch_symm nm x y a k hnm hx hy hxy
+    · rfl
 
 end QipVerif.Route
